@@ -13,7 +13,9 @@ from __future__ import annotations
 import asyncio
 import datetime as _dt
 import itertools
+import os
 import uuid
+from unittest import mock
 import warnings
 import xml.etree.ElementTree as ET
 from typing import Any, Dict, List, Optional
@@ -55,11 +57,13 @@ EXHAUSTIVE = {"quick": False, "thorough": False}
 ASSUMPTIONS = [
     "variables are of UPnP type i4, boolean or string and are assigned values of their own type (validation is C08/C14's subject); "
     "string values consist of characters XML 1.0 can carry",
+    "a CALLBACK header carries one URL",
     "header text is ASCII; TIMEOUT values have at most 9 digits (beyond that timedelta overflows: outside the alphabet)",
     "each operation is followed by running the loop until idle (a burst operation makes its assignments without yielding in between)",
     "a NOTIFY delivery completes, fails (UpnpConnectionError / TimeoutError) or stays outstanding; failed deliveries are not retried by the code",
 ]
-TRUSTED = ["C15: asyncio run-to-quiescence semantics and the µs-snapped virtual-time loop; aiohttp Response.prepare on a mocked request"]
+TRUSTED = ["C15: asyncio run-to-quiescence semantics and the µs-snapped virtual-time loop; aiohttp Response.prepare on a mocked request",
+           "C15: the attribution search (harness `attribute`) is complete w.r.t. the monitor's J4/J5 rules; whatever it emits is verified by the Lean monitor"]
 
 BASE_US = 1704067200_000000  # 2024-01-01T00:00:00Z
 
@@ -77,6 +81,28 @@ def _make_vdt(loop):
                 d = d.replace(tzinfo=_dt.timezone.utc).astimezone(tz)
             return cls(d.year, d.month, d.day, d.hour, d.minute, d.second, d.microsecond, d.tzinfo)
     return VDT
+
+
+class _RunnerStub:
+    """stands in for aiohttp's AppRunner: keeps the Application the server built"""
+    captured = None
+
+    def __init__(self, app, *a, **k):
+        _RunnerStub.captured = app
+
+    async def setup(self):
+        _RunnerStub.captured.freeze()  # what AppRunner.setup does before serving (signals must be frozen)
+
+
+class _SiteStub:
+    def __init__(self, *a, **k):
+        self.name = "stub"
+
+    async def start(self):
+        pass
+
+    async def stop(self):
+        pass
 
 
 class _Writer:
@@ -132,6 +158,21 @@ def _body_token(body: str, names: List[str]) -> str:
     return ",".join(f"{i}={tok_str(v)}" for i, v in out) if out else "~"
 
 
+def granted_tok(to: Optional[str]) -> str:
+    """the granted timeout of a SUBSCRIBE response in seconds: UDA's `Second-n` (any case) or a bare `n`;
+    `Second-infinite` is a timeout that never runs out; anything else is no granted timeout at all (`~`)"""
+    if to is None:
+        return "~"
+    t = to.strip()
+    if t.lower().startswith("second-"):
+        t = t[7:]
+    if t.lower() == "infinite":
+        return str(10 ** 12)
+    if t.isascii() and t.isdigit() or (t[:1] == "-" and t[1:].isascii() and t[1:].isdigit()):
+        return str(int(t))
+    return "~"
+
+
 def val_tok(v) -> str:
     if v is None:
         return "N"
@@ -140,6 +181,119 @@ def val_tok(v) -> str:
     if isinstance(v, int):
         return f"i{v}"
     return "s" + tok_str(v)
+
+
+def attribute(lines: List[str], services) -> List[str]:
+    """J4/J5 on HTTP-level observations: find, for every service, an attribution of the NOTIFYs after the initial
+    ones to variables (one `h trig x t` line right before the first NOTIFY it pays for) that the Lean monitor
+    accepts: x is evented, one of its changes is still unanswered, the previous event attributed to x is at least
+    x's interval old, the attribution is made at the NOTIFY's own instant and pays for one NOTIFY per subscriber.
+    The search is exhaustive (memoised backtracking); when no attribution exists none is emitted and the judge
+    rejects the NOTIFY that cannot be explained."""
+    import sys
+    nsvc = len(services)
+    out_hints: Dict[int, List[str]] = {}
+    for k in range(nsvc):
+        vs = services[k]
+        nv = len(vs)
+        evented = [bool(v[0]) for v in vs]
+        rate = [int(v[1]) for v in vs]
+        # items of this service: (line index, kind, payload)
+        items = []
+        for li, ln in enumerate(lines):
+            t = ln.split()
+            if not t:
+                continue
+            if t[0] == "adv":
+                items.append((li, "adv", int(t[1])))
+                continue
+            if not t[0].startswith("@") or int(t[0][1:]) != k:
+                continue
+            r = t[1:]
+            if r[0] == "set":
+                items.append((li, "assign", [(int(r[1]), r[2])]))
+            elif r[0] == "burst":
+                items.append((li, "assign", [(int(a.split("=")[0]), a.split("=")[1]) for a in r[1].split(",")]))
+            elif r[0] in ("sub", "renew", "unsub", "done", "fail", "setkey"):
+                items.append((li, "op", r[0]))
+            elif r[0] == "o" and r[1] == "resp":
+                items.append((li, "resp", (r[2], r[3])))
+            elif r[0] == "o" and r[1] == "notify":
+                try:
+                    items.append((li, "notify", (int(r[2]), int(r[4]))))
+                except ValueError:
+                    items.append((li, "skip", None))
+        cur0 = tuple(val_tok(v[2]) for v in vs)
+        memo = set()
+        sys.setrecursionlimit(10000)
+
+        best = [-1, []]
+
+        def go(i, now, target, cur, pending, last, subs, last_op, acc=()):
+            # subs: tuple of (got, credit)
+            while i < len(items):
+                li, kind, pl = items[i]
+                if kind in ("adv", "assign", "op"):
+                    now = target
+                    subs = tuple((g, 0) for g, _ in subs)
+                    if kind == "adv":
+                        target = now + pl
+                    elif kind == "assign":
+                        cur = list(cur)
+                        pending = list(pending)
+                        for x, v in pl:
+                            if x < nv and cur[x] != v:
+                                cur[x] = v
+                                pending[x] += 1
+                        cur = tuple(cur)
+                        pending = tuple(pending)
+                    last_op = pl if kind == "op" else kind
+                elif kind == "resp":
+                    status, sid = pl
+                    if last_op == "sub" and status == "200" and sid != "~" and int(sid) == len(subs):
+                        subs = subs + ((False, 0),)
+                    last_op = None
+                elif kind == "notify":
+                    sid, t = pl
+                    if now < t:
+                        subs = tuple((g, 0) for g, _ in subs)
+                    now = max(now, t)
+                    if sid < len(subs):
+                        got, credit = subs[sid]
+                        if not got:
+                            subs = subs[:sid] + ((True, credit),) + subs[sid + 1:]
+                        elif credit > 0:
+                            subs = subs[:sid] + ((True, credit - 1),) + subs[sid + 1:]
+                        else:
+                            key = (i, now, target, cur, pending, last, subs)
+                            if i > best[0]:
+                                best[0], best[1] = i, list(acc)  # the longest explained prefix (for the judge's message)
+                            if key in memo:
+                                return None
+                            for x in range(nv):
+                                if evented[x] and pending[x] > 0 and (last[x] is None or last[x] + rate[x] <= t):
+                                    p2 = pending[:x] + (pending[x] - 1,) + pending[x + 1:]
+                                    l2 = last[:x] + (t,) + last[x + 1:]
+                                    s2 = tuple((g, c + 1) for g, c in subs)
+                                    s2 = s2[:sid] + ((True, s2[sid][1] - 1),) + s2[sid + 1:]
+                                    rest = go(i + 1, now, target, cur, p2, l2, s2, last_op, acc + ((li, x, t),))
+                                    if rest is not None:
+                                        return [(li, x, t)] + rest
+                            memo.add(key)
+                            return None
+                i += 1
+            return []
+
+        res = go(0, 0, 0, cur0, tuple(0 for _ in vs), tuple(None for _ in vs), tuple(), None)
+        for li, x, t in (res if res is not None else best[1]):
+            out_hints.setdefault(li, []).append(f"@{k} h trig {x} {t}")
+    if not out_hints:
+        return lines
+    out = []
+    for li, ln in enumerate(lines):
+        out.extend(out_hints.get(li, []))
+        out.append(ln)
+    return out
 
 
 def norm_services(recipe: Dict[str, Any]) -> List[List[List[Any]]]:
@@ -183,6 +337,7 @@ def run_recipe(ctx: Ctx, recipe: Dict[str, Any], cid: str) -> Case:
     ndel = [0] * nsvc
     in_adv = [False]
     svc_objs: List[Any] = []
+    app_box: List[Any] = []
 
     def now_us() -> int:
         return round(loop.time() * 1e6)
@@ -211,8 +366,8 @@ def run_recipe(ctx: Ctx, recipe: Dict[str, Any], cid: str) -> Case:
             obs.append(f"@{k} o notify {sid_idx(k, sid)} {seq if ok else 'bad-' + seq} {now_us()} {tok_str(url)} {btok}")
             if seq != "0":
                 stats["post"] += 1
-            await fut
-            return 200, {}, ""
+            status = await fut
+            return status or 200, {}, ""  # the subscriber's answer (the server ignores it: 412 / 500 change nothing)
 
     orig_trigger = saved[2]
 
@@ -259,9 +414,9 @@ def run_recipe(ctx: Ctx, recipe: Dict[str, Any], cid: str) -> Case:
         to = headers.get("TIMEOUT") if headers is not None else None
         if status != 200:
             return f"@{k} o resp {status} ~ ~"
-        return f"@{k} o resp {status} {'~' if sid is None else sid_idx(k, sid)} {'~' if to is None else to}"
+        return f"@{k} o resp {status} {'~' if sid is None else sid_idx(k, sid)} {granted_tok(to)}"
 
-    async def call_handler(fn, k, method, headers) -> None:
+    async def call_handler(k, method, headers) -> None:
         st = {"logged": False, "sid": None}
 
         def on_headers(status_line, hdrs):
@@ -270,16 +425,26 @@ def run_recipe(ctx: Ctx, recipe: Dict[str, Any], cid: str) -> Case:
                 st["sid"] = hdrs.get("SID")
                 obs.append(resp_line(k, int(status_line.split()[1]), hdrs))
 
-        req = make_mocked_request(method, f"/e{k}", headers=headers, writer=_Writer(on_headers), loop=loop)
+        req = make_mocked_request(method, f"/e{k}", headers=headers, writer=_Writer(on_headers), loop=loop, app=app_box[0])
 
         async def wrapped():
+            from aiohttp import web
             try:
-                resp = await fn(svc_objs[k], req)
+                info = await app_box[0].router.resolve(req)  # the server's own route table decides which handler runs
+                resp = await info.handler(req)
+            except web.HTTPException as e:  # e.g. 405 when the method has no route
+                if not st["logged"]:
+                    st["logged"] = True
+                    obs.append(f"@{k} o resp {e.status} ~ ~")
+                return
             except Exception as e:  # noqa: BLE001 - reported as an observation
                 if not st["logged"]:
                     st["logged"] = True
                     obs.append(f"@{k} o resp 500 ~ ~")
                     tags.add(f"handler-exc:{type(e).__name__}")
+                    if os.environ.get("C15_DEBUG"):
+                        import traceback
+                        traceback.print_exc()
                 elif st["sid"] in sids[k]:
                     obs.append(f"@{k} o exc {sid_idx(k, st['sid'])}")  # raised after the response: the initial NOTIFY failed
                     tags.add("initial-delivery-failed")
@@ -350,7 +515,16 @@ def run_recipe(ctx: Ctx, recipe: Dict[str, Any], cid: str) -> Case:
     async def main() -> None:
         srv.datetime = cli.datetime = _make_vdt(loop)
         srv.UpnpEventableStateVariable.trigger_event = trigger_event
-        dev = Dev(Requester(), "http://192.0.2.9:8000")
+        # the real UpnpServer with its real aiohttp Application / route table (no socket, no SSDP); every SUBSCRIBE /
+        # UNSUBSCRIBE below is resolved by that router, so the route table is part of every case
+        shared_requester = Requester()
+        with mock.patch.object(srv, "AppRunner", _RunnerStub), mock.patch.object(srv, "TCPSite", _SiteStub), \
+                mock.patch.object(srv, "AiohttpRequester", lambda *a, **k: shared_requester):
+            server = srv.UpnpServer(Dev, ("192.0.2.9", 0), http_port=8000)
+            server._create_device()  # noqa: SLF001
+            await server._async_start_http_server()  # noqa: SLF001
+        app_box.append(_RunnerStub.captured)
+        dev = server._device  # noqa: SLF001
         svc_objs.extend(dev.services[f"urn:x:service:S{k}:1"] for k in range(nsvc))
         await _settle(loop)
         obs.clear()  # construction-time triggers (default values) precede the history
@@ -370,7 +544,7 @@ def run_recipe(ctx: Ctx, recipe: Dict[str, Any], cid: str) -> Case:
                 if to is not None:
                     hdr["TIMEOUT"] = to
                 lines.append(f"{at}sub {opt_tok(cb)} {opt_tok(to)}")
-                await call_handler(srv.subscribe_handler, k, "SUBSCRIBE", hdr)
+                await call_handler(k, "SUBSCRIBE", hdr)
             elif name == "renew":
                 _, ref, cb, to = op
                 hdr = {"SID": sid_of(k, ref)}
@@ -381,14 +555,14 @@ def run_recipe(ctx: Ctx, recipe: Dict[str, Any], cid: str) -> Case:
                 if ref == "x":
                     tags.add("foreign-sid")
                 lines.append(f"{at}renew {sid_tok(k, ref)} {opt_tok(cb)} {opt_tok(to)}")
-                await call_handler(srv.subscribe_handler, k, "SUBSCRIBE", hdr)
+                await call_handler(k, "SUBSCRIBE", hdr)
             elif name == "unsub":
                 _, ref = op
                 hdr = {} if ref is None else {"SID": sid_of(k, ref)}
                 if ref == "x":
                     tags.add("foreign-sid")
                 lines.append(f"{at}unsub {sid_tok(k, ref)}")
-                await call_handler(srv.unsubscribe_handler, k, "UNSUBSCRIBE", hdr)
+                await call_handler(k, "UNSUBSCRIBE", hdr)
             elif name == "set":
                 _, x, v = op
                 if x >= len(names[k]):
@@ -421,7 +595,10 @@ def run_recipe(ctx: Ctx, recipe: Dict[str, Any], cid: str) -> Case:
                     continue
                 lines.append(f"{at}{name} {n}")
                 if name == "done":
-                    parked[k][n].set_result(None)
+                    st_code = ctx.rng.choice([200, 200, 200, 412, 500])
+                    if st_code != 200:
+                        tags.add(f"subscriber-answers:{st_code}")
+                    parked[k][n].set_result(st_code)
                 else:
                     parked[k][n].set_exception(ctx.rng.choice([UpnpConnectionError("refused"), asyncio.TimeoutError()]))
                 await _settle(loop)
@@ -465,6 +642,9 @@ def run_recipe(ctx: Ctx, recipe: Dict[str, Any], cid: str) -> Case:
         tags.add("deferred-trigger")
     if stats["post"]:
         tags.add("post-initial-event")
+    lines = attribute(lines, services)
+    if stats["post"] and not any(" o trig " in ln for ln in lines):
+        tags.add("hook-saw-no-trigger")
     return Case(cid, lines, recipe, bool(stats["post"] or stats["deferred"]), sorted(tags))
 
 
